@@ -153,13 +153,22 @@ func init() {
 				if i%5 == 4 {
 					p.Prelude = "slow"
 				}
+				if i%5 == 2 {
+					// users with a limit and iterations of unequal length: one user is slow while the others do 10 iterations
+					// each; the last 9 iterations still find all c users
+					c, mode = pick(r, 3, 4, 5), "users"
+					p.PerTick, p.Prelude = c, "uneven"
+				}
 				p.Spec = engine.RateSpec(mode, p.PerTick, 20, c)
 				if mode == "users" {
 					p.Spec = engine.Spec{Mode: "users", Concurrency: c, MaxDurationMS: 60000}
 				}
 				p.Spec.IgnoreDropped = true
 				p.Spec.MaxFailures = 1 << 40
-				p.Desc = fmt.Sprintf("mode=%s c=%d perTick=%d body=gated rendezvous=true prelude=%s", mode, c, p.PerTick, p.Prelude)
+				if p.Prelude == "uneven" {
+					p.Spec.MaxIterations = uint64(10 * c)
+				}
+				p.Desc = fmt.Sprintf("mode=%s c=%d perTick=%d body=gated rendezvous=true prelude=%s max-iterations=%d", mode, c, p.PerTick, p.Prelude, p.Spec.MaxIterations)
 				cse := core.MkCase("C04", "run", 8000+i, seed, p)
 				cse.Race = i%2 == 0
 				cse.Procs = pick(r, 2, 16)
@@ -267,6 +276,12 @@ func c04Run(c *core.Case, o *core.Outcome) {
 					engine.Behave(t, []int{engine.BFailNow, engine.BRequire, engine.BPanicString, engine.BFatal, engine.BPanicError}[ps%5])
 				case p.Prelude == "slow" && ps == 1:
 					time.Sleep(5500 * time.Millisecond)
+					preludeOver.Store(true)
+				case p.Prelude == "uneven" && ps == 1:
+					// the slow user: its iteration lasts until the others have started 10 iterations each
+					for deadline := time.Now().Add(8 * time.Second); preludeSeq.Load() < 10*(cc-1)+1 && time.Now().Before(deadline); {
+						time.Sleep(time.Millisecond)
+					}
 					preludeOver.Store(true)
 				default:
 					time.Sleep(time.Millisecond)
